@@ -109,7 +109,7 @@ def bb_case(rng, tier, kind=None, zoom_mode=None, style=None, invalid=False, nqu
         elif how == "unknown":
             sizes = [s for s in sizes if s[0] != inp[k][0]] or sizes
         elif how == "split":
-            # the first chromosome comes back after the others (refused since /repo 6b10d42)
+            # the first chromosome comes back after the others (refused since /repo 4ea85d7)
             if len(names) > 1:
                 inp.append(list(inp[0])); o[6] = 0
         else:
